@@ -202,6 +202,9 @@ impl Settings {
     //@spec                 // acknowledged exactly once: the slot is empty unless applying failed
     //@spec                 && (r matches Poll::Ready(Ok(_)) ==> final(self).remote is None),
     //@spec         }),
+    //@spec         // the single slot never fills here (I-single-slot, used by Connection::poll_ready in unit v_connection)
+    //@spec         old(self).remote is None ==> final(self).remote is None,
+    //@spec         (r matches Poll::Ready(Ok(_))) ==> final(self).remote is None,
     //@spec         // ---- nothing owed: no ACK is invented, nothing is applied
     //@spec         (old(self).remote is None && !(old(self).local matches Local::ToSend(_))) ==> r == Poll::<Result<(), Error>>::Ready(Ok(())) && *final(self) == *old(self) && final(log).ev@ == old(log).ev@,
     //@spec         // ---- our queued SETTINGS: sent once, then waiting for the ACK with exactly those values
